@@ -734,9 +734,12 @@ fn execute_faulted(scn: &RegScenario, mask: Mask) -> Result<RegResult, Violation
     let mut reg = Registry::new();
     let mut seen: BTreeMap<u32, Type<PortableForm>> = BTreeMap::new();
     let mut fired_at: Option<usize> = None;
+    let mut key_to_id: BTreeMap<Tx, u32> = BTreeMap::new();
+    let mut id_to_key: BTreeMap<u32, Tx> = BTreeMap::new();
     for (e, d) in scn.owner.iter().enumerate() {
         probe("events.delivery");
-        match apply_catching_unwind(&mut reg, &d.req) {
+        let outcome_ids = apply_catching_unwind(&mut reg, &d.req);
+        match &outcome_ids {
             None => {
                 probe("fault.unwind_in_type_info.fired");
                 if fired_at.is_none() {
@@ -746,10 +749,59 @@ fn execute_faulted(scn: &RegScenario, mask: Mask) -> Result<RegResult, Violation
             }
             Some(ids) => {
                 for id in ids {
-                    core::log_u64(id as u64);
+                    core::log_u64(*id as u64);
                 }
                 if fired_at.is_some() {
                     probe("reach.registration_after_an_unwound_one");
+                }
+            }
+        }
+        // C05 clauses that survive an unwound registration on the unchanged
+        // tree: an identity keeps one id, distinct identities keep distinct ids,
+        // and no definition is evaluated twice (the failed one was evaluated
+        // once and stays interned)
+        if mask.has("C05") {
+            if let Some(ids) = &outcome_ids {
+                let refs = d.req.refs();
+                if refs.len() == ids.len() && matches!(d.req, Req::Register(_) | Req::RegisterMany(_)) {
+                    for (t, id) in refs.iter().zip(ids) {
+                        let k = key(&tx(*t));
+                        match key_to_id.get(&k) {
+                            Some(old) if old != id => {
+                                fail(mask, "C05", "fault.alias_ids_differ", || {
+                                    format!(
+                                        "event {}: {} (identity {:?}) got id {}, that identity had id {} (a registration had unwound at event {:?})",
+                                        e, t.show(), k, id, old, fired_at
+                                    )
+                                })?;
+                            }
+                            Some(_) => {}
+                            None => {
+                                key_to_id.insert(k.clone(), *id);
+                            }
+                        }
+                        match id_to_key.get(id) {
+                            Some(old) if *old != k => {
+                                fail(mask, "C05", "fault.distinct_types_share_id", || {
+                                    format!("event {}: id {} stands for {:?} and for {:?}", e, id, old, k)
+                                })?;
+                            }
+                            Some(_) => {}
+                            None => {
+                                id_to_key.insert(*id, k);
+                            }
+                        }
+                    }
+                }
+            }
+            for (l, &c) in universe::counters().iter().enumerate() {
+                if c > 1 {
+                    fail(mask, "C05", "fault.definition_evaluated_twice", || {
+                        format!(
+                            "event {}: type_info() of logical node {} evaluated {} times (a registration had unwound at event {:?})",
+                            e, l, c, fired_at
+                        )
+                    })?;
                 }
             }
         }
@@ -822,7 +874,7 @@ fn execute_faulted(scn: &RegScenario, mask: Mask) -> Result<RegResult, Violation
 }
 
 fn execute_inner(scn: &RegScenario, mask: Mask) -> Result<RegResult, Violation> {
-    if !scn.unwind_nodes.is_empty() && mask.has("C11") {
+    if !scn.unwind_nodes.is_empty() && (mask.has("C11") || mask.has("C05")) {
         return execute_faulted(scn, mask);
     }
     let mut res = RegResult {
